@@ -7,7 +7,7 @@ length field, and their boundaries +-1): faults while nothing is in flight test 
 from . import seeds
 
 KINDS = ['truncate', 'zero_block', 'bitflip', 'overwrite', 'dup_block', 'swap_blocks', 'append', 'empty', 'foreign', 'header_damage', 'value_damage',
-         'value_damage']
+         'value_damage', 'shorten_record']
 
 
 def apply(by: bytes, fault) -> bytes:
@@ -87,6 +87,23 @@ def gen_fault(rng, by_len, fields, kinds=None):
         return ['overwrite', position(rng, n, fields), rng.rbytes(rng.wpick([(3, rng.randrange(1, 5)), (2, rng.randrange(4, 64))])).hex()]
     if kind == 'header_damage':
         return ['overwrite', rng.randrange(0, 128), rng.rbytes(rng.randrange(1, 24)).hex()]
+    if kind == 'shorten_record':
+        # the length field of a physical record / segment / visible record is lowered so that the record ends exactly at a
+        # structural boundary INSIDE it (in front of or behind a stored value): the record-level twin of truncating the file
+        lens = sorted(f for f in fields if f[2] in ('pr.len', 'seg.len', 'vr.len') and f[1] == 2)
+        marks = sorted(f for f in fields if f[2].startswith('val'))
+        cands = []
+        for i, lf in enumerate(lens):
+            nxt = next((g[0] for g in lens[i + 1:] if g[2] == lf[2]), n)
+            inside = [m for m in marks if lf[0] + 4 < m[0] < nxt]
+            if inside:
+                cands.append((lf, inside))
+        if not cands:
+            return ['zero_block', position(rng, n, fields), rng.randrange(1, 9)]
+        lf, inside = rng.pick(cands)
+        m = rng.pick(inside)
+        end = rng.pick([m[0], m[0], m[0] + m[1], m[0] - 1, m[0] + 1])
+        return ['overwrite', lf[0], max(0, min(0xffff, end - lf[0])).to_bytes(2, 'big').hex()]
     if kind == 'value_damage':
         # a stored metadata value (dimension, count, representation code, size, units ...) replaced by a boundary value: the
         # record structure stays intact, what the conversion has accepted as its description of the data is wrong
